@@ -237,6 +237,17 @@ for _p, _t in {
  "C15": "Round g: observers of a SeparationConstraint reading the freed guideline variable (known finding); ~Router frees objects of pending additions.",
 }.items():
     CHECKS[_p]["text"] = CHECKS[_p]["text"].rstrip() + " " + _t
+# clauses added in round h
+for _p, _t in {
+ "C06": "Round h: the three producers of the contains sets agree (shared with C03); phase conditions see leaves nested in an earlier sibling if.",
+ "C08": "Round h: the containment compound records sub-constraints for every node and child cluster, node-less clusters included; clusters below a fixed-rectangle cluster get their own bounds.",
+ "C11": "Round h: an end-point update stores the given ConnEnd unconditionally; the active pin is identified by its vertex; setRoutingCheckpoints marks the connector for rerouting; processActions cannot start a nested transaction; fixed-route connectors keep their pins.",
+ "C14": "Round h: a leaf tree's bounds are half its root's extent across the REQUESTED growth direction.",
+ "C15": "Round h: no solver object is read after it was freed in the same function; no vector / deque iterator is used after the container may have grown; std::prev(end()) only of non-empty containers; thrown char pointers outlive the throw; a caller's topology nodes are not replaced; constraints generated for one projection / dropped from the owning list are freed.",
+ "C17": "Round h: the neighbour matrix of computeNeighbours holds 0 / 1 flags; the majorization layout corrects non-positive lengths in the array it actually uses.",
+ "C19": "Round h: leaf-tree bounds across the requested growth direction; NodeBuckets has a leaf bucket for edgeless graphs.",
+}.items():
+    CHECKS[_p]["text"] = CHECKS[_p]["text"].rstrip() + " " + _t
 # clauses added in rounds e / f
 for _p, _t in {
  "C01": "Rounds e/f: the constraint heaps hand out stale and block-internal constraints first (comparator table, both copies); copyResult publishes position() for every variable; solver constructors and addConstraint clear a stale unsatisfiable flag.",
